@@ -14,7 +14,7 @@ from kfv.rules import tensor_rules as TR
 from kfv.rules.spmd_rules import conjuncts
 
 TECHNIQUE = ('who-may-write analysis of parameter attributes, alias analysis (abstract interpretation with storage labels) of hook inputs, '
-             'module gradients and factor slots against in-place sinks, decorator / return-value / guard analysis of the hooks, dtype and shape typing of the write-back')
+             'module gradients and factor slots against in-place sinks, decorator / return-value / guard analysis of the hooks, dtype and shape typing of the write-back; cache-coherence rule')
 EXPLANATION = (
     'Stores to .grad of a torch module occur only in ModuleHelper.set_grad, reached only from KFACBaseLayer.update_grad over the '
     'registered layers; nothing stores to .data / .weight / .bias / requires_grad.  The tensors autograd hands to the hooks carry an '
@@ -23,7 +23,7 @@ EXPLANATION = (
     'extraction legal.  step and both hooks run under torch.no_grad(), the hooks return None on every path and do nothing unless '
     'module.training; the written-back gradient has the gradient\'s dtype, each parameter\'s own shape, and is contiguous; hooks are '
     'installed once per registered module.  The 1/rows normalisation is applied before the contraction so the unnormalised Gram sum is '
-    'never materialised in the factor dtype.  Finiteness as a numerical fact and device placement are not decided.')
+    'never materialised in the factor dtype.  Finiteness as a numerical fact and device placement are not decided. Lazily cached state is keyed / invalidated (MEMO-*).')
 
 NOT_DECIDED = 'finiteness as a numerical fact; device placement'
 
